@@ -200,17 +200,33 @@ def stripExtras (hint : List String) : List String × List String :=
   (hint.filter (fun w => !(w.startsWith "o=" || w.startsWith "cur=")),
    hint.filter (fun w => w.startsWith "o=" || w.startsWith "cur="))
 
+def dbIdle (st : DbSt) (rest : List String) : DbSt × String :=
+  let o := (field "o=" rest).getD ""
+  let (pcs, comp') := compact st.comp st.c07.s.levels (parseOracle ("o=" ++ o) [])
+  let (c07', out) := Driver.C07.step st.c07 ["bg", "c", "##", "compactidle"]
+  let st' := { st with c07 := c07', comp := comp' }
+  (st', if pcs.isNone then joinWith " " ([out, "o=" ++ o, "cur=" ++ toString comp'.minorLevel])
+        else out ++ " pick-mismatch model=" ++ showCS pcs comp'.minorLevel)
+
 def stepDB (st : DbSt) (ws : List String) : DbSt × String :=
   let (op, hint) := splitHint ws
   match op, hint with
   | ["chk"], _ => (st, if st.unsafeSeen then "not-safe-change-set-seen" else "safe")
-  | ["bg", "c"], "compactidle" :: rest =>
+  | ["bg", "cf"], "cf" :: "compactbegin" :: rest =>
+    -- `Compact` computed its change set, then (while it was writing its first table) the flush task wrote its tables
     let o := (field "o=" rest).getD ""
+    let n := match rest.dropWhile (· != "flushbegin") with
+      | _ :: k :: _ => k
+      | _ => "0"
+    let (c07a, out1) := Driver.C07.step st.c07 ["bg", "c", "##", "compactbegin"]
     let (pcs, comp') := compact st.comp st.c07.s.levels (parseOracle ("o=" ++ o) [])
-    let (c07', out) := Driver.C07.step st.c07 ["bg", "c", "##", "compactidle"]
-    let st' := { st with c07 := c07', comp := comp' }
-    (st', if pcs.isNone then joinWith " " ([out, "o=" ++ o, "cur=" ++ toString comp'.minorLevel])
-          else out ++ " pick-mismatch model=" ++ showCS pcs comp'.minorLevel)
+    let (c07b, out2) := Driver.C07.step c07a ["bg", "f", "##", "flushbegin", n]
+    let st' := { st with c07 := c07b, begun := some ("o=" ++ o, st.c07.s.levels, st.comp) }
+    (st', if pcs.isSome then joinWith " " (["cf", out1, "o=" ++ o, "cur=" ++ toString comp'.minorLevel, out2])
+          else "cf pick-mismatch model=none")
+  | ["bg", "cf"], "compactidle" :: rest => dbIdle st rest
+  | ["bg", "cf"], [x] => (st, x)
+  | ["bg", "c"], "compactidle" :: rest => dbIdle st rest
   | ["bg", "c"], "compactbegin" :: rest =>
     let o := (field "o=" rest).getD ""
     let (c07', out) := Driver.C07.step st.c07 ["bg", "c", "##", "compactbegin"]
